@@ -78,12 +78,19 @@ def check_export(which, model, text, out, selections=None):
         out.append((f"C10.{which}.export-not-interpretable", str(err)[:200]))
 
 
+def _poisoned(model):
+    return {**model, "ctcs": list(model["ctcs"]) + [{"name": "Poison", "ast": ["GREATER", ["ADD", ["T", model["root"]["name"] + ".cost"], ["I", 1]], ["I", 3]]}]}
+
+
 def check(case):
     from flamapy.metamodels.fm_metamodel.transformations import SPLOTWriter
     from flamapy.metamodels.fm_metamodel.transformations.pl_writer import PLWriter
     out = []
     model = case["model"] if "selections" in case else case
     for which, cls in (("splot", SPLOTWriter), ("pl", PLWriter)):
+        # an export that fails half-way (a constraint the format cannot express) must leave nothing behind that the
+        # next export of a healthy model would pick up
+        lib(lambda: cls(None, build.build(_poisoned(model))).transform())
         if "selections" in case and which == "pl" and len(build.names(model)) > 15 and not case.get("pl"):
             continue      # the propositional export spells a cardinality group out combination by combination
         fm = build.build(model)
